@@ -26,7 +26,8 @@ import traceback
 VERIF = os.path.dirname(os.path.dirname(os.path.abspath(__file__)))
 REPO = os.environ.get("VERIF_REPO", "/repo")
 N_SHARDS = 16
-MAX_VIOLATIONS_KEPT = 8
+COLLECT = bool(os.environ.get("VERIF_COLLECT"))   # development aid: do not stop/shrink at the first violation
+MAX_VIOLATIONS_KEPT = 400 if COLLECT else 8
 
 
 def setup_paths():
@@ -170,7 +171,7 @@ def run_search(stats, name, strategy, n, seed, tier):
 
     def prop(case):
         kind, v = stats.run(case, name)
-        if kind == "viol":
+        if kind == "viol" and not COLLECT:
             last["case"] = case
             last["detail"] = v.detail
             last["fid"] = v.fid
@@ -329,7 +330,7 @@ def run(mod, pid, tier, seed, procs, t0):
     seen = set()
     replay_paths = []
     for case, detail, fid in agg["violations"]:
-        key = fid or detail[:60]
+        key = (fid or detail[:60]) if not COLLECT else detail[:90]
         if key in seen:
             continue
         seen.add(key)
@@ -337,7 +338,7 @@ def run(mod, pid, tier, seed, procs, t0):
         replay_paths.append(path)
         print("VIOLATION property={} replay={}".format(pid, path))
         print("  detail: {}".format(detail[:600]))
-        if len(seen) >= 5:
+        if len(seen) >= (60 if COLLECT else 5):
             break
 
     samples = []
